@@ -446,6 +446,12 @@ DIRECTED = [
      {'a.prophy': 'enum E { E_First = 1, E_Second = 2 };\ntypedef E T;\ntypedef T TT;\nstruct Y { TT a; u32 b; TT c[2]; };\n'}, 'a.prophy', 'usable'),
     ('struct named like a block of the raw C++ header (D177)', None,
      {'a.prophy': 'struct part2 { u32 v; u32 w; };\nstruct X { u8 a<>; u8 b; u8 c<>; part2 d; u8 e; };\n'}, 'a.prophy', 'reject'),
+    ('struct named like the tenth block of the raw C++ header (seeded C08-r9: part1x fell out of the pattern)', None,
+     {'a.prophy': 'struct part10 { u32 a; u32 b; u32 c; };\nstruct X { ' + ' '.join('u8 x%d<>;' % i for i in range(1, 11)) + ' part10 p; u32 tail; };\n'}, 'a.prophy', 'reject'),
+    ('struct named like the hundredth block', None,
+     {'a.prophy': 'struct part100 { u32 a; u32 b; u32 c; };\nstruct X { ' + ' '.join('u8 x%d<>;' % i for i in range(1, 101)) + ' part100 p; u32 tail; };\n'}, 'a.prophy', 'reject'),
+    ('a type named part1 beside a struct of several blocks (no block is called part1)', None,
+     {'a.prophy': 'struct part1 { u32 a; u32 b; u32 c; };\nstruct X { u8 x1<>; u8 x2<>; part1 p; u32 tail; };\n'}, 'a.prophy', 'usable'),
     ('isar: struct named _discriminator used as a union arm (D177)', '--isar',
      {'a.xml': ISAR % ('<struct name="_discriminator"><member name="a" type="u64"/><member name="b" type="u64"/></struct>'
                        '<union name="U"><member name="x" type="_discriminator" discriminatorValue="1"/></union>')}, 'a.xml', 'reject'),
